@@ -244,6 +244,29 @@ def run(repo: Repo, chk: Check):
     ok = isinstance(last, ast.Return) and isinstance(last.value, ast.Call) and norm(last.value.func) == "float" and norm(last.value.args[0]) == param
     chk.judge("R03.f", "utils:_e:falls through to float(value)", ok, f"_e ends in {norm(last)[:80]}, expected 'return float({param})'",
               None, f"{u.path}:{last.lineno} in _e")
+    # every other way out of _e hands back a double as well: Python's integers are exact at any size, the chip's numbers are doubles
+    CONV = ("float", "compute_hash", "compute_string", "calc_hash")
+    raw = []
+    for r in rets:
+        v = r.value
+        if isinstance(v, ast.Call) and norm(v.func) in CONV:
+            continue
+        conv = False
+        if isinstance(v, ast.Name):
+            # the statements of the same block in front of the return: the name was just given a converted value
+            blk = None
+            par = getattr(r, "parent", None)
+            for fld in ("body", "orelse"):
+                if r in (getattr(par, fld, None) or []):
+                    blk = getattr(par, fld)
+            before = blk[:blk.index(r)] if blk else []
+            given = [x for x in before if isinstance(x, ast.Assign) and any(isinstance(t_, ast.Name) and t_.id == v.id for t_ in x.targets)]
+            conv = bool(given) and isinstance(given[-1].value, ast.Call) and norm(given[-1].value.func) in CONV
+        if not conv:
+            raw.append(norm(v)[:50])
+    chk.judge("R03.f", "utils:_e:every value leaves as a double (or as the number of a hash / string constant)", not raw,
+              f"_e also returns {raw} unconverted: an int stays a Python integer, whose arithmetic is exact at any size, while the chip computes in doubles "
+              f"(123456789 * 987654321 % 1000 folds to 269, the chip gives 264)", {"unconverted": raw}, f"{u.path}:{ef.lineno} in _e")
     hash_ok = False
     for st in ast.walk(ef):
         if isinstance(st, ast.Assign) and isinstance(st.value, ast.Call) and norm(st.value.func) == "compute_hash":
